@@ -96,12 +96,41 @@ def read_bytes(path):
         return None
 
 
+class FV(object):
+    """Read-only view of a (possibly huge, sparse) file: never reads more than what is asked for."""
+
+    def __init__(self, path):
+        self.path = path
+        self.size = os.path.getsize(path)
+
+    def read(self, off, n):
+        if n <= 0 or off < 0:
+            return b''
+        fd = os.open(self.path, os.O_RDONLY)
+        try:
+            return os.pread(fd, n, off)
+        finally:
+            os.close(fd)
+
+    def __len__(self):
+        return self.size
+
+
+def view(path):
+    try:
+        return FV(path)
+    except OSError:
+        return None
+
+SMALL = 4 * 1024 * 1024      # files up to this size are compared byte for byte behind the fixed part
+
+
 def parse_v2(raw):
     """-> (entries {(x, y): (offset, size)} for size != 0, raw values list, problems)"""
     bad = []
-    if len(raw) < B2:
-        return {}, [], ['file shorter than header + index: %d' % len(raw)]
-    vals = struct.unpack('<16384Q', raw[64:B2])
+    if raw is None or len(raw) < B2:
+        return {}, [], ['file shorter than header + index: %r' % (None if raw is None else len(raw))]
+    vals = struct.unpack('<16384Q', raw.read(64, B2 - 64))
     live = {}
     for k, v in enumerate(vals):
         size, off = v >> 40, v & MASK40
@@ -111,9 +140,9 @@ def parse_v2(raw):
         live[(x, y)] = (off, size)
         if off - 4 < B2 or off + size > len(raw):
             bad.append('entry (%d,%d): record [%d,%d) not inside the file behind the index (len %d)' % (x, y, off - 4, off + size, len(raw)))
-        elif struct.unpack('<L', raw[off - 4:off])[0] != size:
+        elif struct.unpack('<L', raw.read(off - 4, 4))[0] != size:
             bad.append('entry (%d,%d): size in index %d, size in front of the data %d' % (
-                x, y, size, struct.unpack('<L', raw[off - 4:off])[0]))
+                x, y, size, struct.unpack('<L', raw.read(off - 4, 4))[0]))
     spans = sorted((o - 4, o + s, xy) for xy, (o, s) in live.items())
     for a, b in zip(spans, spans[1:]):
         if a[1] > b[0]:
@@ -124,8 +153,8 @@ def parse_v2(raw):
 def inv_v2(raw):
     live, vals, bad = parse_v2(raw)
     hdr = []
-    if len(raw) >= 64:
-        h = struct.unpack('<4I3Q6I', raw[:64])
+    if raw is not None and len(raw) >= 64:
+        h = struct.unpack('<4I3Q6I', raw.read(0, 64))
         if h[5] != len(raw):
             hdr.append('header file size %d, file length %d' % (h[5], len(raw)))
         if live and h[2] < max(s for _, s in live.values()):
@@ -154,7 +183,7 @@ def parse_v1(idx, dat):
         if off < 60 or off + 4 > len(dat):
             bad.append('entry (%d,%d): offset %d has no size field inside the file (len %d)' % (x, y, off, len(dat)))
             continue
-        size = struct.unpack('<L', dat[off:off + 4])[0]
+        size = struct.unpack('<L', dat.read(off, 4))[0]
         if off + 4 + size > len(dat):
             bad.append('entry (%d,%d): record [%d,%d) not inside the file (len %d)' % (x, y, off, off + 4 + size, len(dat)))
             continue
@@ -173,7 +202,7 @@ def inv_v1(idx, dat, c, r):
     offs, live, bad = parse_v1(idx, dat)
     hdr = []
     if dat is not None and len(dat) >= 60:
-        h = struct.unpack('<4I3Q5I', dat[:60])
+        h = struct.unpack('<4I3Q5I', dat.read(0, 60))
         if h[5] != len(dat):
             hdr.append('header bundle size %d, file length %d' % (h[5], len(dat)))
         if live and h[2] < max(s for _, s in live.values()):
@@ -266,11 +295,11 @@ def check_files(ctx, real, replay, when):
     for key, base in sorted(bundle_files(real.dir).items()):
         z, c, r = key
         if v == 2:
-            raw = read_bytes(base + '.bundle')
+            raw = view(base + '.bundle')
             live, bad, hdr = inv_v2(raw)
             out[key] = {'raw': raw, 'live': live}
         else:
-            idx, dat = read_bytes(base + '.bundlx'), read_bytes(base + '.bundle')
+            idx, dat = read_bytes(base + '.bundlx'), view(base + '.bundle')
             if dat is None:
                 # remove_tile on a bundle that was never written creates the index only; the data file
                 # appears with the first read.  Nothing to check yet.
